@@ -167,7 +167,18 @@ impl NodeDrive {
                             value.key_disk_addr,
                         );
                     } else {
-                        log::debug!("To reclame_space nothing need to be done on delete");
+                        log::debug!("To reclame_space nothing need to be written on delete");
+                        // The new files do not contain the key any more: drop the tombstone too.
+                        // Kept, it would carry an offset into the OLD key file, and the next
+                        // incremental snapshot would write "deleted" over another key's record
+                        let mut map = db.map.write().unwrap();
+                        let still_deleted = match map.get(&key) {
+                            Some(current) => current.state == ValueStatus::Deleted,
+                            None => false,
+                        };
+                        if still_deleted {
+                            map.remove(&key);
+                        }
                     }
                 }
             }
